@@ -31,6 +31,8 @@ import (
 	"go.opentelemetry.io/collector/exporter/exporterhelper"
 	"go.opentelemetry.io/collector/pdata/plog"
 	"go.opentelemetry.io/collector/pdata/pmetric"
+	"go.opentelemetry.io/collector/pdata/pprofile"
+	"go.opentelemetry.io/collector/pdata/ptrace"
 	"go.opentelemetry.io/collector/verifharness/lib/canon"
 	"go.opentelemetry.io/collector/verifharness/lib/driver"
 	"go.opentelemetry.io/collector/verifharness/lib/gen"
@@ -130,6 +132,8 @@ func buildL1(rng *rand.Rand, rare float64) *l1Case {
 	if s.name == "profiles" && cs.Sizer == "items" && rng.Float64() >= 0.04*rare {
 		cfg.OneSample = true // stay in the region where "size in samples" and "split by profile" agree
 	}
+	// bare items: items without any field set serialise to zero bytes — the smallest thing a splitter has to account for
+	bare := rng.Intn(7) == 0
 	var payloads []any
 	sizes := make([]int, n)
 	total := 0
@@ -137,6 +141,9 @@ func buildL1(rng *rand.Rand, rare float64) *l1Case {
 	for i := 0; i < n; i++ {
 		g := gen.New(rng, fmt.Sprintf("q%d", i), cfg)
 		p := s.gen(g)
+		if bare {
+			addBare(p, rng)
+		}
 		b, err := s.marshal(p)
 		if err != nil {
 			panic(err)
@@ -180,6 +187,78 @@ func buildL1(rng *rand.Rand, rare float64) *l1Case {
 	cs.Max = cand[rng.Intn(len(cand))]
 	cs.Class, cs.MaxUnit = classify(s, cs.Sizer, cs.Max, payloads)
 	return cs
+}
+
+// addBare appends 2..40 items that have no field set (zero bytes on the wire) to one or two existing scopes.
+func addBare(p any, rng *rand.Rand) {
+	k := 2 + rng.Intn(12)
+	if rng.Intn(4) == 0 {
+		k = 20 + rng.Intn(21)
+	}
+	switch v := p.(type) {
+	case plog.Logs:
+		for i := 0; i < v.ResourceLogs().Len() && i < 2; i++ {
+			if sl := v.ResourceLogs().At(i).ScopeLogs(); sl.Len() > 0 {
+				t := sl.At(rng.Intn(sl.Len())).LogRecords()
+				for j := 0; j < k; j++ {
+					t.AppendEmpty()
+				}
+			}
+		}
+	case ptrace.Traces:
+		for i := 0; i < v.ResourceSpans().Len() && i < 2; i++ {
+			if sl := v.ResourceSpans().At(i).ScopeSpans(); sl.Len() > 0 {
+				t := sl.At(rng.Intn(sl.Len())).Spans()
+				for j := 0; j < k; j++ {
+					t.AppendEmpty()
+				}
+			}
+		}
+	case pmetric.Metrics:
+		for i := 0; i < v.ResourceMetrics().Len() && i < 2; i++ {
+			if sl := v.ResourceMetrics().At(i).ScopeMetrics(); sl.Len() > 0 {
+				ms := sl.At(rng.Intn(sl.Len())).Metrics()
+				m := ms.AppendEmpty()
+				m.SetName(fmt.Sprintf("bare%d", i))
+				switch rng.Intn(5) {
+				case 0:
+					t := m.SetEmptyGauge().DataPoints()
+					for j := 0; j < k; j++ {
+						t.AppendEmpty()
+					}
+				case 1:
+					t := m.SetEmptySum().DataPoints()
+					for j := 0; j < k; j++ {
+						t.AppendEmpty()
+					}
+				case 2:
+					t := m.SetEmptyHistogram().DataPoints()
+					for j := 0; j < k; j++ {
+						t.AppendEmpty()
+					}
+				case 3:
+					t := m.SetEmptyExponentialHistogram().DataPoints()
+					for j := 0; j < k; j++ {
+						t.AppendEmpty()
+					}
+				default:
+					t := m.SetEmptySummary().DataPoints()
+					for j := 0; j < k; j++ {
+						t.AppendEmpty()
+					}
+				}
+			}
+		}
+	case pprofile.Profiles:
+		for i := 0; i < v.ResourceProfiles().Len() && i < 2; i++ {
+			if sl := v.ResourceProfiles().At(i).ScopeProfiles(); sl.Len() > 0 {
+				t := sl.At(rng.Intn(sl.Len())).Profiles()
+				for j := 0; j < k; j++ {
+					t.AppendEmpty().Sample().AppendEmpty() // one (bare) sample: the unit in which profiles are counted
+				}
+			}
+		}
+	}
 }
 
 // ---------------------------------------------------------------------------------------------
